@@ -61,7 +61,7 @@ type c03WalletCfg struct {
 	InValue     int64 // value of each funding input
 	Layout      []c03OutSpec
 	DropRequest bool // wallet ignores the requested output (misbehaving wallet)
-	// LND only: the first funding input is a nested (P2SH-P2WPKH) output, so that finalizing the PSBT adds a
+	// the first funding input is a nested (P2SH-P2WPKH) output, so that signing (LND: FinalizePsbt, CLN: txsend) adds a
 	// scriptSig and the id of the final transaction differs from the id of the unsigned one
 	NestedInput bool
 }
@@ -243,6 +243,12 @@ func (f *c03Cln) serve(conn net.Conn) {
 				break
 			}
 			s := c03Signed(tx)
+			if w.cfg.NestedInput && len(s.TxIn) > 0 {
+				// lightningd funded with a p2sh-wrapped segwit output: signing adds a scriptSig, the id of the
+				// transaction that is sent differs from the id txprepare reported
+				s.TxIn[0].SignatureScript = append([]byte{0x16, 0x00, 0x14}, bytes.Repeat([]byte{0x5a}, 20)...)
+			}
+			w.obs.Final = s
 			w.obs.Broadcasts = append(w.obs.Broadcasts, c03TxBytes(s))
 			result = map[string]interface{}{"psbt": "", "tx": hex.EncodeToString(c03TxBytes(s)), "txid": s.TxHash().String()}
 		default:
